@@ -63,5 +63,13 @@ CHECKS = {
     text='Postcondition on the real generate_imu (three input forms x two sensor types) against analytic truth motions: interior readings vs exact body rate / specific force or their exact interval integrals, returned trajectory vs truth, strapdown re-integration vs returned trajectory - each through the halving ladder; order of the gyro interval integration (ratio <= 0.125); bodies at rest vs the closed form; generate_sine_velocity_motion vs its documented closed form and an own integration on the ellipsoid.',
     ref='2/C03', technique='runtime postcondition vs analytic truth motion on an interval-halving ladder',
     note='Accelerometer floor 100 eps R / h^2 (spline second derivative of a 6.4e6 m vector); samples within 12 knots of the ends checked by shrink test only; Turntable excluded.'),
+ 'C04': dict(
+    text='Postcondition on the real InsErrorModel.system_matrices / propagate_errors against error growth measured through the real strapdown pipeline: central-difference sensitivity of the error state (library coordinates = inverse of correct_pva) after a filter step with respect to the 9 (7) error states and 6 constant sensor-error directions, versus the transition / input response obtained by integrating the library matrices along the nominal run; per 3x3 block the residual must stay below the first-order perturbation bound built from the table of documented-neglected term sizes plus measured truncation and finite-difference floors; propagate_errors through a sampling ladder.',
+    ref='2/C04', technique='runtime postcondition vs measured sensitivity of the real integrator, block-wise perturbation bound',
+    note='Neglected-term table and constants calibrated on the unchanged tree (max ratio 0.58 over 3000 points at K=3; K=4 used) and frozen; terms of the size of the documented neglect are by construction undecidable.'),
+ 'C11': dict(
+    text='Each case runs the real run_feedforward_filter under the event recorder (arrays kept) and compares every result field (compensated trajectory, trajectory_sd, sensor estimates and sd, normalised innovations) with an independent one-shot Gauss-Markov solution of the linear system the oracle assembles itself from public pieces only (own mid-point pva cross-checked against the recorded linearisation point, public system_matrices / EstimationModel attributes, own joint assembly, own textbook Van Loan, own initial covariance); agreement demanded to 1e-5 of the reported sd.',
+    ref='2/C11', technique='runtime comparison with an independent non-recursive reference estimator',
+    note='Cases with innovation-covariance cond > 1e10 are not decided; measurement rows attached to the grid row at or before their epoch (the filter\'s own linearisation).'),
 }
 PENDING = {}
